@@ -218,6 +218,91 @@ class Fn:
         self._ipdom = ip
         return ip
 
+    def live_in(self):
+        """live-in locals per block (backward may-liveness over normal edges; a place with projections uses its base)"""
+        if getattr(self, "_live", None) is not None:
+            return self._live
+        n = len(self.blocks)
+        use = [set() for _ in range(n)]
+        dfn = [set() for _ in range(n)]
+
+        def op_uses(o, acc):
+            if isinstance(o, dict):
+                if o.get("k") in ("copy", "move"):
+                    pl_uses(o["pl"], acc)
+
+        def pl_uses(pl, acc):
+            acc.add(pl["l"])
+            for e in pl["p"]:
+                if isinstance(e, dict) and "idx" in e:
+                    acc.add(e["idx"])
+
+        for b, blk in enumerate(self.blocks):
+            u, d = use[b], dfn[b]
+
+            def rd(pl):
+                tmp = set()
+                pl_uses(pl, tmp)
+                for l in tmp:
+                    if l not in d:
+                        u.add(l)
+
+            def rdo(o):
+                if isinstance(o, dict) and o.get("k") in ("copy", "move"):
+                    rd(o["pl"])
+            for s in blk["stmts"]:
+                if s["s"] == "assign":
+                    for k in ("a", "b"):
+                        if k in s:
+                            rdo(s[k])
+                    if "pl" in s:
+                        rd(s["pl"])
+                    for o in s.get("ops", []):
+                        rdo(o)
+                    dst = s["dst"]
+                    if dst["p"]:
+                        rd(dst)
+                    else:
+                        d.add(dst["l"])
+                elif s["s"] == "setdiscr":
+                    rd(s["dst"])
+            t = blk["term"]
+            if t:
+                for k in ("discr", "cond", "func", "value"):
+                    if k in t:
+                        rdo(t[k])
+                for a in t.get("args", []):
+                    rdo(a)
+                if t["t"] == "drop":
+                    rd(t["pl"])
+                if t["t"] == "assert":
+                    for k in ("a", "b", "len", "index"):
+                        if k in t["msg"]:
+                            rdo(t["msg"][k])
+                if t["t"] == "call":
+                    if t["dest"]["p"]:
+                        rd(t["dest"])
+                    else:
+                        d.add(t["dest"]["l"])
+                if t["t"] == "return":
+                    if 0 not in d:
+                        u.add(0)
+        live = [set() for _ in range(n)]
+        sm = self.succ_map()
+        changed = True
+        while changed:
+            changed = False
+            for b in range(n - 1, -1, -1):
+                out = set()
+                for s in sm[b]:
+                    out |= live[s]
+                new = use[b] | (out - dfn[b])
+                if new != live[b]:
+                    live[b] = new
+                    changed = True
+        self._live = live
+        return live
+
     def back_edges(self):
         dom = self.dominators()
         out = []
